@@ -155,6 +155,34 @@ def run(ctx):
                                       {"mode": m, "type": name, "table_hex": [[float(v).hex() for v in rr] for rr in tab], "beta": float(forms[0][1])})
                 if len(forms) > 3:
                     ctx.mark_nontrivial(tab.tobytes())
+        # (c') the labelling step as the main loop calls it (predict_cluster_labels on a model state): scalar vs filled vector,
+        # incl. zero cost and data with exact ties
+        from fast_ticc import cluster_label_assignment as cla2, cluster_maintenance as cm2, graphical_lasso as gl2
+        from fast_ticc.containers import model_state as ms2, arguments as ar2
+        from fast_ticc import matrix_compression as mc2
+        for i in range(ctx.budget(12, 60)):
+            K = 2 + i % 2; T = 14
+            if i % 3 == 0:
+                data = np.array([[-1.0], [1.0]] * (T // 2)) + 0.0          # points equidistant from symmetric clusters: exact ties
+            else:
+                data = rng.normal(size=(T, 1)) * 2
+            outs = []
+            for form in ("scalar", "vector"):
+                bval = [0.0, 3.0, 0.0, 0.5][i % 4]
+                ua = ar2.UserArguments(sparsity_weight=0.1, iteration_limit=1, label_switching_cost=(bval if form == "scalar" else np.full(T, bval)),
+                                       min_cluster_size=1, min_meaningful_covariance=0, num_clusters=K, num_processors=1, biased_covariance=False, window_size=1)
+                st = ms2.ModelState.empty_model(ua, data)
+                st.point_labels = [j % K for j in range(T)]
+                for k, c in enumerate(st.clusters):
+                    c.stacked_data_mean = np.array([(-1.0) ** k * (1.0 + (k // 2))])
+                    c.train_inverse = np.array([[1.0]])
+                o = cla2.predict_cluster_labels(st, data)
+                outs.append(([int(x) for x in o.point_labels], float(o.label_assignment_cost).hex()))
+            ctx.count("labelling-step")
+            ctx.mark_nontrivial(("step", i))
+            if outs[0] != outs[1]:
+                ctx.violation("monitor", "labelling step: scalar switching cost %r and the filled vector give different labels / cost (%s vs %s)" % (bval, outs[0], outs[1]),
+                              {"beta": bval, "data": data.ravel().tolist(), "K": K})
         # (d') end to end in both execution modes: every scalar type for beta / lambda / eps
         series = e2e.make_data({"N": 1, "lengths": [50], "data_seed": 12, "regimes": 2})[0]
         forms = [("reference", dict(label_switching_cost=4.0, sparsity_weight=0.5, min_meaningful_covariance=0.0))]
@@ -197,6 +225,13 @@ def run(ctx):
                         ("beta as np.float32", dict(b, beta=np.float32(4.0))), ("eps as int 0", dict(b, eps=0)), ("eps as np.float64", dict(b, eps=np.float64(0.0)))]
             if not b["joint"]:
                 variants.append(("beta as filled vector", dict(b, beta=np.full(T, 4.0))))
+                # a zero switching cost in both forms (compared with each other)
+                z0 = e2e.traced_run(dict(b, beta=0.0))
+                z1 = e2e.traced_run(dict(b, beta=np.zeros(T)))
+                z2 = e2e.traced_run(dict(b, beta=0))
+                ctx.count("e2e-form", 2)
+                if not same_result(z0, z1) or not same_result(z0, z2):
+                    ctx.violation("monitor", "end to end: a zero switching cost gives different results as scalar 0.0 / int 0 / vector of zeros", {"cfg": {k: v for k, v in b.items()}, "form": "beta = 0"})
             for name, cfgv in variants:
                 ctx.count("e2e-form")
                 r = e2e.traced_run(cfgv)
